@@ -188,6 +188,12 @@ func TestHand(t *testing.T) {
 	st := vlib.NewStats("hands")
 	vlib.RunRapid(t, "hand", "hand", st, func(rt *rapid.T) vlib.Outcome {
 		_, mons := profileFor(prop)
+		pr := pr
+		if prop == "C07" && rapid.Bool().Draw(rt, "tightStacks") {
+			// resuming matters most where the betting state is intricate: short all-ins
+			// on top of each other, minimum raises, stacks next to the forced amounts
+			pr.SmallStacks = true
+		}
 		cfg := GenCfg(rt, pr)
 		h := &Hand{Prop: prop, Cfg: cfg, St: st, Mons: mons}
 		h.OnHang = func(v *vlib.Violation) {
